@@ -69,6 +69,104 @@ func ruleDispatchComplete(c *Ctx) {
 	}
 }
 
+// execScan is the row scan of (*Query).exec: the loop over query.from. It lives in exec itself or, after an
+// "extract method" refactoring, in a helper the rule tables do not know that exec calls (the scan phase); then
+// `call` is exec's call of that helper and the scan's accumulator reaches exec as a result of that call.
+type execScan struct {
+	exec *ssa.Function
+	fn   *ssa.Function // the function that holds the loop
+	lp   *loopInfo
+	call *ssa.Call // exec's call of the helper (nil when the loop is in exec)
+}
+
+func (c *Ctx) findExecScan(exec *ssa.Function) *execScan {
+	if lp := findRangeLoopOverField(exec, "from"); lp != nil {
+		return &execScan{exec: exec, fn: exec, lp: lp}
+	}
+	var found *execScan
+	var look func(f *ssa.Function, top *ssa.Call, depth int)
+	look = func(f *ssa.Function, top *ssa.Call, depth int) {
+		allInstrs(f, func(_ *ssa.BasicBlock, in ssa.Instruction) {
+			call, ok := in.(*ssa.Call)
+			if !ok || found != nil || depth > 2 {
+				return
+			}
+			h := call.Common().StaticCallee()
+			if !isUnknownHelper(h) {
+				return
+			}
+			t := top
+			if t == nil {
+				t = call
+			}
+			if lp := findRangeLoopOverField(h, "from"); lp != nil {
+				// the helper must scan the very query exec runs
+				recv := false
+				for i, a := range call.Common().Args {
+					if pa, isP := a.(*ssa.Parameter); isP && shortType(pa.Type()) == "*Query" && i < len(h.Params) {
+						if lt := NewTB().Of(lp.over); lt.Op == "field" && lt.Args[0].Op == "param" && lt.Args[0].Name == h.Params[i].Name() {
+							recv = true
+						}
+					}
+				}
+				if recv && f == exec {
+					found = &execScan{exec: exec, fn: h, lp: lp, call: t}
+				}
+				return
+			}
+			look(h, t, depth+1)
+		})
+	}
+	look(exec, nil, 0)
+	return found
+}
+
+// after: the paths of exec from the end of the scan (helper form: from the block that calls the scan helper; the
+// walker inlines the helper, so the scan's own calls appear first on these paths).
+func (s *execScan) after(cfg WalkCfg) ([]*Path, error) {
+	if s.call == nil {
+		return WalkFrom(s.exec, s.lp.exit, s.lp.header, cfg)
+	}
+	return WalkFrom(s.exec, s.call.Block(), nil, cfg)
+}
+
+// afterBlock: the block of exec from which everything runs after the scan.
+func (s *execScan) afterBlock() *ssa.BasicBlock {
+	if s.call == nil {
+		return s.lp.exit
+	}
+	return s.call.Block()
+}
+
+// helperReturnsAcc: helper form: on every success return of the scan helper the first result is the loop's
+// accumulator (the value the appends of the loop grow).
+func (s *execScan) helperReturnsAcc() (bool, string) {
+	if s.call == nil {
+		return true, ""
+	}
+	ei := errIdx(s.fn)
+	paths, err := WalkFrom(s.fn, s.lp.exit, s.lp.header, WalkCfg{MaxVisits: 1, NoEffects: true})
+	if err != nil {
+		return false, err.Error()
+	}
+	n := 0
+	for _, p := range paths {
+		if p.Exit != "return" || len(p.Ret) == 0 || (ei >= 0 && !p.Ret[ei].Nil) {
+			continue
+		}
+		n++
+		t := p.Ret[0].T
+		ph, isPhi := t.V.(*ssa.Phi)
+		if !isPhi || ph.Block() != s.lp.header {
+			return false, "the scan helper " + funcName(s.fn) + " returns " + avString(p.Ret[0]) + ", not the rows its loop collected"
+		}
+	}
+	if n == 0 {
+		return false, "the scan helper " + funcName(s.fn) + " has no success return after its loop"
+	}
+	return true, ""
+}
+
 // ruleExecPipeline: after the row scan, every success path of exec runs the stages once each, in order, each on the previous stage's output.
 func ruleExecPipeline(c *Ctx) {
 	c.Doc("exec.pipeline", "(*Query).exec, after the row scan: every success path runs grouping, projection, duplicate elimination and ordering exactly once each, in that order, each stage receiving the rows the previous stage returned (the first one the scan's accumulator), and the window is cut from the last stage's output; no stage is bypassed on any path")
@@ -78,13 +176,13 @@ func ruleExecPipeline(c *Ctx) {
 		return
 	}
 	c.Fn("(*Query).exec")
-	lp := findRangeLoopOverField(exec, "from")
-	if lp == nil {
+	scan := c.findExecScan(exec)
+	if scan == nil {
 		c.Unknown("exec.pipeline", "(*Query).exec", c.P.Pos(exec.Pos()), "anchor lost: no loop over query.from")
 		return
 	}
 	stages := []string{"ExecGroupBy", "ExecSelect", "ExecDistinct", "ExecOrderBy"}
-	paths, err := WalkFrom(exec, lp.exit, lp.header, WalkCfg{MaxVisits: 1, MaxPaths: 4000})
+	paths, err := scan.after(WalkCfg{MaxVisits: 1, MaxPaths: 6000})
 	if err != nil {
 		c.Unknown("exec.pipeline", "(*Query).exec", c.P.Pos(exec.Pos()), err.Error())
 		return
@@ -653,13 +751,14 @@ func ruleExecKeptFresh(c *Ctx) {
 		c.Unknown("exec.kept-fresh", "(*Query).exec", "-", "anchor lost")
 		return
 	}
-	lp := findRangeLoopOverField(exec, "from")
-	if lp == nil {
+	scan := c.findExecScan(exec)
+	if scan == nil {
 		c.Unknown("exec.kept-fresh", "(*Query).exec", c.P.Pos(exec.Pos()), "anchor lost: no loop over query.from")
 		return
 	}
+	lp := scan.lp
 	n := 0
-	for _, b := range exec.Blocks {
+	for _, b := range scan.fn.Blocks {
 		if !inNaturalLoop(lp.header, b) {
 			continue
 		}
@@ -737,12 +836,12 @@ func ruleResolveBeforeCompare(c *Ctx) {
 		c.Unknown("c14.resolve-before-compare", "(*Query).exec", "-", "anchor lost")
 		return
 	}
-	lp := findRangeLoopOverField(exec, "from")
-	if lp == nil {
+	scan := c.findExecScan(exec)
+	if scan == nil {
 		c.Unknown("c14.resolve-before-compare", "(*Query).exec", c.P.Pos(exec.Pos()), "anchor lost: no loop over query.from")
 		return
 	}
-	paths, err := WalkFrom(exec, lp.exit, lp.header, WalkCfg{MaxVisits: 1, MaxPaths: 4000})
+	paths, err := scan.after(WalkCfg{MaxVisits: 1, MaxPaths: 6000})
 	if err != nil {
 		c.Unknown("c14.resolve-before-compare", "(*Query).exec", c.P.Pos(exec.Pos()), err.Error())
 		return
